@@ -348,7 +348,14 @@ func cmdCheck(args []string) int {
 			if hr.Stats.Paths == 0 && len(hr.Inconclusive) == 0 {
 				allInc = append(allInc, Inconclusive{Harness: hr.Harness, Reason: "vacuous: no feasible complete path"})
 			}
+			// group counterexamples by message; replay until one reproduces
+			done := map[string]bool{}
+			failed := map[string]string{}
 			for _, v := range hr.Violations {
+				key := v.Kind + "|" + v.Msg
+				if done[key] {
+					continue
+				}
 				v.Tape.complete(run, l)
 				kf := matchKnown(known, id, v)
 				dir := filepath.Join(verifRoot, "replays", id)
@@ -358,8 +365,11 @@ func cmdCheck(args []string) int {
 				os.WriteFile(path, tb, 0o644)
 				rr := replayTape(l, run, v.Tape)
 				replays++
+				allVio = append(allVio, v)
 				if rr.Reproduced {
 					reproduced++
+					done[key] = true
+					delete(failed, key)
 					if kf != nil {
 						knownLines = append(knownLines, fmt.Sprintf("KNOWN-FINDING: property=%s %s", id, kf.Desc))
 					} else {
@@ -367,9 +377,12 @@ func cmdCheck(args []string) int {
 						fmt.Printf("  violated: harness=%s msg=%q case=[%s] native: %s\n", v.Harness, v.Msg, v.Case, rr.Summary)
 					}
 				} else {
-					allInc = append(allInc, Inconclusive{Harness: v.Harness, Reason: fmt.Sprintf("counterexample for %q did not reproduce natively (%s): encoding or stub mismatch", v.Msg, rr.Summary), Case: v.Case})
+					failed[key] = fmt.Sprintf("counterexample for %q did not reproduce natively (%s): encoding or stub mismatch, or an effect the native oracle cannot observe", v.Msg, rr.Summary)
+					os.Remove(path)
 				}
-				allVio = append(allVio, v)
+			}
+			for _, why := range failed {
+				allInc = append(allInc, Inconclusive{Harness: hr.Harness, Reason: why})
 			}
 		}
 	}
